@@ -342,7 +342,8 @@ func RouteOf(route string) (pos int, typ string, slot int, part string, ok bool)
 	}
 	var t byte
 	var rest string
-	if n, _ := fmt.Sscanf(host, "%c%d.c%d.%s", &t, &slot, &pos, &rest); n < 3 {
+	var order byte
+	if n, _ := fmt.Sscanf(host, "%c%c%d.c%d.%s", &t, &order, &slot, &pos, &rest); n < 4 {
 		return 0, "", 0, "", false
 	}
 	typ = string(t)
